@@ -162,3 +162,69 @@ m('M24d', 'C08', 'C08.fifo-structure', 'mutex.h',
   """            x->_next = _queue;
             _queue= x;""", """            x->_next = nullptr;
             if (_queue) { auto t = _queue; while (t->_next) t = t->_next; t->_next = x; } else _queue = x;""", 'append at tail (LIFO service)')
+m('M12', 'C04', 'C04.claimed-promise', 'async.h',
+  """        if (promise._future) {
+            return start_coro();
+        }  else {
+            return nullptr;
+        }""", """        return start_coro();""", 'start without claim')
+m('M13', 'C04', 'C04.', 'async.h',
+  """        auto h = std::exchange(_h,{});
+        return h;""", """        return _h;""", 'start_coro keeps the handle')
+m('M13b', 'C04', 'C04.co-await-wiring', 'async.h',
+  """            std::coroutine_handle<promise_type> start_handle = std::coroutine_handle<promise_type>::from_address(this->_handle_addr);
+            auto &p = start_handle.promise();
+            this->set_handle(h);""", """            this->set_handle(h);
+            std::coroutine_handle<promise_type> start_handle = std::coroutine_handle<promise_type>::from_address(this->_handle_addr);
+            auto &p = start_handle.promise();""", 'set_handle overwrites callee handle')
+m('M13c', 'C04', 'C04.dtor', 'async.h',
+  "        if (_h) _h.destroy();", "        (void)_h;", '~async leaks unstarted frame')
+m('M13d', 'C04', 'C04.start-once', 'async.h',
+  """    suspend_point<void> detach() {
+        return start_coro();""", """    suspend_point<void> detach() {
+        if (!_h) return {};
+        return start_coro();""", 'detach may not start')
+m('M13e', 'C04', 'C04.types', 'async.h',
+  "    std::suspend_always initial_suspend() noexcept {return {};}", "    std::suspend_never initial_suspend() noexcept {return {};}", 'coroutine starts eagerly')
+m('M14', 'C05', 'C05.mode-split', 'coro_queue.h',
+  """        if (instance) {
+            assert("Attempt to resume empty handle " && h);
+            instance->_queue.push_back(h);
+        } else {
+            install_queue_and_resume(h);
+        }""", """        install_queue_and_resume(h);""", 'resume always nests')
+m('M15', 'C05', 'C05.drain-before-restore', 'coro_queue.h',
+  """            instance->flush_queue();
+            instance = prev;""", """            auto __q = instance;
+            instance = prev;
+            __q->flush_queue();""", 'restore before drain')
+m('M16', 'C05', 'C05.drain-before-restore', 'coro_queue.h',
+  "            while (!_queue.empty()) {", "            if (!_queue.empty()) {", 'drain once')
+m('M16b', 'C05', 'C05.fifo-ops', 'coro_queue.h',
+  """        void push(std::coroutine_handle<> h) {
+            return _queue.push_back(h);""", """        void push(std::coroutine_handle<> h) {
+            return _queue.push_front(h);""", 'enqueue at the front')
+m('M16c', 'C05', 'C05.mode-split', 'suspend_point.h',
+  """                for (auto x: *this) {
+                    coro_queue::instance->push(std::coroutine_handle<>::from_address(x));
+                }
+            } else {
+                coro_queue::install_queue_and_call([&]{
+                    for (auto x: *this) {""", """                for (auto x: *this) {
+                    std::coroutine_handle<>::from_address(x).resume();
+                }
+            } else {
+                coro_queue::install_queue_and_call([&]{
+                    for (auto x: *this) {""", 'suspend_now resumes directly in coroutine mode')
+m('M16d', 'C05', 'C05.pause', 'coro_queue.h',
+  """        queue.push_back(h);
+        h = queue.front();
+        queue.pop_front();
+        return h;
+    }
+};""", """        auto n = queue.front();
+        queue.pop_front();
+        queue.push_back(h);
+        return n;
+    }
+};""", 'pause takes the head before re-queueing itself')
